@@ -26,13 +26,43 @@ def site_of(e):
     return 'outside'
 
 
+class _CallDeadline(BaseException):
+    """a library call that does not come back within CALL_DEADLINE seconds: an outcome (reported as 'DoesNotReturn'), never a hung check"""
+
+
+CALL_DEADLINE = float(os.environ.get('VERIF_CALL_DEADLINE', '60'))
+_depth = [0]
+
+
+def _on_alarm(signum, frame):
+    raise _CallDeadline()
+
+
 def call(fn, arg):
+    import signal
+    import threading
+    outermost = _depth[0] == 0 and threading.current_thread() is threading.main_thread() and signal.getitimer(signal.ITIMER_REAL)[0] == 0
+    _depth[0] += 1
+    if outermost:
+        old = signal.signal(signal.SIGALRM, _on_alarm)
+        signal.setitimer(signal.ITIMER_REAL, CALL_DEADLINE)
     try:
-        return 'ok', fn(arg), None
-    except RecursionError as e:
-        return 'RecursionError', None, 'recursion'
-    except Exception as e:  # pylint: disable=broad-except
-        return _doc_name(e), None, site_of(e)
+        try:
+            return 'ok', fn(arg), None
+        except RecursionError as e:
+            return 'RecursionError', None, 'recursion'
+        except Exception as e:  # pylint: disable=broad-except
+            return _doc_name(e), None, site_of(e)
+        finally:
+            if outermost:
+                signal.setitimer(signal.ITIMER_REAL, 0)
+    except _CallDeadline:
+        return 'DoesNotReturn', None, 'deadline'
+    finally:
+        _depth[0] -= 1
+        if outermost:
+            signal.setitimer(signal.ITIMER_REAL, 0)
+            signal.signal(signal.SIGALRM, old)
 
 
 def dig(obj):
